@@ -125,7 +125,9 @@ ESCAPES = ['\\"', '\\\\', '\\b', '\\f', '\\n', '\\r', '\\t', '\\u0041', '\\u00e9
            '\\u2028', '\\u007f',
            # escapes of single surrogate code units (legal in JSON and ES5; a JSON parser returns them as they are);
            # spelled so that a high one is never directly followed by a low one - that is a pair, see the findings
-           '\\ud800x', 'x\\udfff', '\\udbff-', '.\\udc00']
+           '\\ud800x', 'x\\udfff', '\\udbff-', '.\\udc00',
+           # an escaped backslash in front of what would be an escape
+           '\\\\u0041', '\\\\n', '\\\\x41', '\\\\\\"']
 RAW = ['a', 'Z', ' ', '\xe9', '\u4e2d', '\U0001f600', '/', "'", '{', '}', '[', ',', ':', '0', '-', 'true', 'null',
        '__proto__', 'constructor', '', '\x7f', '\xa0', '\ufeff']
 NUMBERS = ['0', '-0', '1', '-1', '7', '10', '123456789', '9007199254740993', '-9007199254740993',
@@ -145,7 +147,10 @@ WORDS = ['undefined', 'null', 'true', 'false', 'NaN', 'Infinity', '-Infinity', '
          'break', 'case', 'catch', 'continue', 'debugger', 'default', 'delete', 'do', 'else', 'finally', 'for',
          'function', 'if', 'in', 'instanceof', 'new', 'return', 'switch', 'throw', 'try', 'typeof', 'var', 'void',
          'while', 'with', 'class', 'const', 'enum', 'export', 'extends', 'import', 'super', ' undefined', 'undefined ',
-         'Undefined', 'NULL', 'nan', 'inf', 'nil', 'u0041', 'x41', 'use strict', ';', ',', ':', '=', '-', '+', '!', '~']
+         'Undefined', 'NULL', 'nan', 'inf', 'nil', 'u0041', 'x41',
+         # content that *looks like* an escape sequence (a real backslash followed by what an escape would be):
+         # decoded once by the literal, never again
+         '\\u0041', '\\u00e9x', 'a\\u0062c', '\\n', '\\x41', '\\101', '\\', 'a\\', '\\\\u0041', '\\"', "\\'", '%s', '%(a)s', '{0}', 'use strict', ';', ',', ':', '=', '-', '+', '!', '~']
 
 
 def gen_string(ctx, rng):
